@@ -554,7 +554,7 @@ func cliC13(scratch string, part *h.Partial) map[string]any {
 	lib := "version: '3'\ntasks:\n  tool:\n    cmds:\n      - " + probe("T") + "\n  own:\n    internal: true\n    cmds:\n      - " + probe("O") + "\n"
 	for _, v := range []struct {
 		tag, incOpts, name, ownName string
-		depth2                       bool
+		depth2                      bool
 	}{
 		{"namespaced", "    internal: true\n", "lib:tool", "", false},
 		{"flattened", "    internal: true\n    flatten: true\n", "tool", "", false},
